@@ -366,6 +366,27 @@ def main(ck):
                    dict(cmd=[exe, str(ck.seed), str(rounds), '4', '300']), bucket='concurrent-size')
 
 
+
+def replay(ck, body):
+  """./verif <ID> --replay <violation file>: run exactly the recorded case through the same test function."""
+  from vf import mj
+  rec = body.get('case') or {}
+  if 'case' not in rec or 'check' not in rec:
+    raise NotImplementedError('replay file carries no generated case (bucket %s)' % body.get('bucket'))
+
+  def run_one(test, strategy, max_examples, name='main', **kw):
+    if name != rec['check']:
+      return True
+    try:
+      test(rec['case'])
+      return True
+    except (Violation, AssertionError, mj.MjError) as e:
+      ck.violation('%s: %s' % (type(e).__name__, e), rec, bucket=getattr(e, 'bucket', None) or name)
+      return False
+  ck.run_hypothesis = run_one
+  main(ck)
+
+
 LEVEL = 'exploration'
 TECHNIQUE = ('model-based property testing: Hypothesis-generated operation histories interpreted against the tree\'s '
              'mjCCache (through a C ABI wrapper) and a Python reference model; plus a 4-thread native stress driver with '
